@@ -296,8 +296,28 @@ def install_retainer(mod):
 _RECYCLED = {}
 
 
+_LIBM = [None]
+
+
+def dirty_errno():
+    """leave the C `errno` of this thread at EDOM, as any earlier libm domain error of the caller's program would
+    (acos(2.)): library code that reads errno without clearing it first must not mistake it for its own error"""
+    if _LIBM[0] is None:
+        import ctypes, ctypes.util
+        try:
+            lib = ctypes.CDLL(ctypes.util.find_library("m") or "libm.so.6")
+            lib.acos.restype = ctypes.c_double
+            lib.acos.argtypes = [ctypes.c_double]
+            _LIBM[0] = lib
+        except Exception:
+            _LIBM[0] = False
+    if _LIBM[0]:
+        _LIBM[0].acos(2.0)
+
+
 def recycle(tag, arr):
     import numpy as np
+    dirty_errno()
     a = np.asarray(arr)
     key = (tag, a.shape, a.dtype.str)
     buf = _RECYCLED.get(key)
@@ -340,6 +360,7 @@ def _run_unit(unit):
     r = Result()
     r.current_unit = unit
     RETAINER.flush(Result())        # nothing kept from before the unit
+    dirty_errno()
     try:
         _MOD.run_unit(unit, r)
         RETAINER.verify("(end of unit)")
